@@ -991,6 +991,46 @@ fn builtin_upper() -> Vec<Scenario> {
     add("u-get-offline", s1(), false, 2, vec![], vec![vec![g(0, 0, None)], vec![offline(1)]]);
     add("u-getslot-offline", s1(), false, 2, vec![], vec![vec![g(0, 0, Some(0))], vec![offline(1)]]);
     add("u-online-getT", s1(), false, 2, vec![offline(1), g(to, 1, None)], vec![vec![online(1)], vec![g(to, 0, None)]]);
+    // the offline change loads the entirely free tree 1 (the one slot 0 reserves first when there are two trees), the get
+    // reserves it before the change's compare-exchange: the change has to be re-evaluated (and then fails); the later gets
+    // through the slot must not come from an offline tree
+    add(
+        "u-offline-vs-reserve",
+        s1(),
+        false,
+        2,
+        vec![],
+        vec![vec![g(0, 0, Some(0)), g(0, 0, Some(0)), g(0, 0, Some(0))], vec![offline(1)]],
+    );
+    add(
+        "u-offline-vs-reserve-noslot",
+        s1(),
+        false,
+        2,
+        vec![],
+        vec![vec![g(0, 0, None), g(0, 0, None)], vec![offline(0), offline(1)]],
+    );
+    // the prologue fills row 0 of the reserved tree 1 through slot 0, so the next get moves the slot's start row
+    // (set_start) while the other thread drains the slot and takes the tree offline (matcher free = 0)
+    add(
+        "u-setstart-vs-drain-offline",
+        s1(),
+        false,
+        2,
+        vec![g(6, 0, Some(0))],
+        vec![
+            vec![g(0, 0, Some(0)), g(0, 0, Some(0))],
+            vec![UDrain, UChange { id: Some(1), mclass: None, mfree: 0, cclass: None, op: 2 }],
+        ],
+    );
+    add(
+        "u-setstart-vs-get",
+        s1(),
+        false,
+        2,
+        vec![g(6, 0, Some(0))],
+        vec![vec![g(0, 0, Some(0)), g(0, 0, Some(0))], vec![g(0, 0, Some(0)), g(6, 0, Some(0))]],
+    );
     add("u-offline-offline", s1(), false, 2, vec![], vec![vec![offline(0)], vec![offline(0)]]);
     add(
         "u-reclass-get",
